@@ -324,6 +324,52 @@ def _cim_error(body, r):
     return etree.tostring(doc, xml_declaration=True, encoding='utf-8')
 
 
+_NSP = ('<NAMESPACEPATH><HOST>h</HOST><LOCALNAMESPACEPATH><NAMESPACE '
+        'NAME="root"/><NAMESPACE NAME="cimv2"/></LOCALNAMESPACEPATH>'
+        '</NAMESPACEPATH>')
+_LNSP = ('<LOCALNAMESPACEPATH><NAMESPACE NAME="root"/><NAMESPACE '
+         'NAME="cimv2"/></LOCALNAMESPACEPATH>')
+_INAME = ('<INSTANCENAME CLASSNAME="X"><KEYBINDING NAME="k"><KEYVALUE '
+          'VALUETYPE="string">a</KEYVALUE></KEYBINDING></INSTANCENAME>')
+_INST = ('<INSTANCE CLASSNAME="X"><PROPERTY NAME="k" TYPE="string"><VALUE>a'
+         '</VALUE></PROPERTY></INSTANCE>')
+_CLS = ('<CLASS NAME="X"><PROPERTY NAME="k" TYPE="string"/></CLASS>')
+# valid objects of every kind a reply can carry: each is well-formed and
+# DTD-valid by itself, but of another kind than the operation expects
+VALID_OBJECTS = [
+    _INST, _CLS, _INAME, '<CLASSNAME NAME="X"/>',
+    '<INSTANCEPATH>%s%s</INSTANCEPATH>' % (_NSP, _INAME),
+    '<LOCALINSTANCEPATH>%s%s</LOCALINSTANCEPATH>' % (_LNSP, _INAME),
+    '<CLASSPATH>%s<CLASSNAME NAME="X"/></CLASSPATH>' % _NSP,
+    '<LOCALCLASSPATH>%s<CLASSNAME NAME="X"/></LOCALCLASSPATH>' % _LNSP,
+    '<OBJECTPATH><INSTANCEPATH>%s%s</INSTANCEPATH></OBJECTPATH>' % (
+        _NSP, _INAME),
+    '<OBJECTPATH><CLASSPATH>%s<CLASSNAME NAME="X"/></CLASSPATH>'
+    '</OBJECTPATH>' % _NSP,
+    '<VALUE.NAMEDINSTANCE>%s%s</VALUE.NAMEDINSTANCE>' % (_INAME, _INST),
+    '<VALUE.INSTANCEWITHPATH><INSTANCEPATH>%s%s</INSTANCEPATH>%s'
+    '</VALUE.INSTANCEWITHPATH>' % (_NSP, _INAME, _INST),
+    '<VALUE.OBJECTWITHPATH><INSTANCEPATH>%s%s</INSTANCEPATH>%s'
+    '</VALUE.OBJECTWITHPATH>' % (_NSP, _INAME, _INST),
+    '<VALUE.OBJECTWITHPATH><CLASSPATH>%s<CLASSNAME NAME="X"/></CLASSPATH>%s'
+    '</VALUE.OBJECTWITHPATH>' % (_NSP, _CLS),
+    '<VALUE.OBJECTWITHLOCALPATH><LOCALINSTANCEPATH>%s%s</LOCALINSTANCEPATH>%s'
+    '</VALUE.OBJECTWITHLOCALPATH>' % (_LNSP, _INAME, _INST),
+    '<VALUE.OBJECTWITHLOCALPATH><LOCALCLASSPATH>%s<CLASSNAME NAME="X"/>'
+    '</LOCALCLASSPATH>%s</VALUE.OBJECTWITHLOCALPATH>' % (_LNSP, _CLS),
+    '<VALUE.NAMEDOBJECT>%s%s</VALUE.NAMEDOBJECT>' % (_INAME, _INST),
+    '<VALUE.NAMEDOBJECT>%s</VALUE.NAMEDOBJECT>' % _CLS,
+    '<VALUE.OBJECT>%s</VALUE.OBJECT>' % _INST,
+    '<VALUE.OBJECT>%s</VALUE.OBJECT>' % _CLS,
+    '<VALUE>text</VALUE>', '<VALUE.ARRAY><VALUE>a</VALUE></VALUE.ARRAY>',
+    '<VALUE.REFERENCE>%s</VALUE.REFERENCE>' % _INAME,
+    '<VALUE.REFERENCE><CLASSNAME NAME="X"/></VALUE.REFERENCE>',
+    '<VALUE.REFARRAY><VALUE.REFERENCE>%s</VALUE.REFERENCE></VALUE.REFARRAY>'
+    % _INAME,
+    '<QUALIFIER.DECLARATION NAME="Q" TYPE="string"/>',
+]
+
+
 def _struct(body, r):
     """One (sometimes two) structure-aware mutations of the reply."""
     try:
@@ -335,7 +381,43 @@ def _struct(body, r):
         m = r.choice(['attr_set', 'attr_set', 'attr_set', 'attr_del',
                       'attr_add', 'text', 'text', 'rename', 'drop', 'dup',
                       'reorder', 'insert', 'insert', 'wrap', 'empty',
-                      'deep', 'near_miss', 'near_miss', 'near_miss'])
+                      'deep', 'near_miss', 'near_miss', 'near_miss',
+                      'unwrap', 'unwrap', 'replace', 'replace', 'replace'])
+        if m == 'unwrap':
+            # an element is replaced by one of its child elements (e.g.
+            # VALUE.NAMEDINSTANCE by its INSTANCE)
+            cands = [n for n in nodes if n.getparent() is not None and
+                     len(n) > 0 and n.tag not in ('CIM', 'MESSAGE',
+                                                  'SIMPLERSP')]
+            if not cands:
+                continue
+            n = r.choice(cands)
+            kid = r.choice(list(n))
+            n.getparent().replace(n, kid)
+            continue
+        if m == 'replace':
+            # a returned object is replaced by a valid object of another
+            # kind (what the same operation returns for another target, or
+            # what a different operation returns)
+            cands = [n for n in nodes if n.getparent() is not None and
+                     n.getparent().tag in ('IRETURNVALUE', 'PARAMVALUE',
+                                           'RETURNVALUE')]
+            if not cands:
+                cands = [n for n in nodes if n.getparent() is not None and
+                         n.tag not in ('MESSAGE', 'SIMPLERSP')]
+            if not cands:
+                continue
+            n = r.choice(cands)
+            new = etree.fromstring(r.choice(VALID_OBJECTS))
+            if r.random() < 0.3:
+                # all siblings, not only one
+                par = n.getparent()
+                for sib in list(par):
+                    import copy as _c
+                    par.replace(sib, _c.deepcopy(new))
+            else:
+                n.getparent().replace(n, new)
+            continue
         if m == 'near_miss':
             # a converted attribute gets a value that is almost valid
             cands = [(n, a) for n in nodes for a in n.attrib
